@@ -793,7 +793,7 @@ class Registry:
             name = kw.get("name", f.name)
             self.harnesses[name] = dict(name=name, func=f, prop=kw.get("prop"), target=kw.get("target"),
                                         uses=list(kw.get("uses", [])), loops=list(kw.get("loops", [])),
-                                        proves=kw.get("proves"), tier=kw.get("tier", "quick"), cases=kw.get("cases"),
+                                        proves=kw.get("proves"), tier=kw.get("tier", "quick"), cases=kw.get("cases"), bounded=kw.get("bounded", False),
                                         timeout=kw.get("timeout"), note=kw.get("note", ""))
         elif kind == "summary":
             name = kw.get("name", f.name)
